@@ -1,87 +1,13 @@
-// C11: LC_CSR_Hypergraph — the CSR clone used for hypergraphs. readGraph() does
-// not compile for it (ReadGraph.h passes a 4th constructFrom argument), so it
-// is built the way its public API allows: allocateFrom(FileGraph) + per-thread
-// constructFrom(FileGraph, tid, total), from arrays, or edge by edge.
-#include "c11_csr.h"
+// C11: hyper family, representative subset of the template matrix (quick + thorough)
+#include "c11_fam_hyper.h"
 
 namespace c11 {
 
-// constructFrom(numNodes, numEdges, prefix_sum, edges_id): structure only (no data argument)
-template <class G>
-void opHyperVectors(Ctx& c) {
-  uint64_t N = c.X.numNodes, m = c.X.numEdges();
-  std::vector<uint64_t> prefix(N);
-  std::vector<std::vector<uint32_t>> ids(N);
-  uint64_t run = 0;
-  for (uint64_t n = 0; n < N; ++n) {
-    run += c.X.adj[n].size();
-    prefix[n] = run;
-    for (auto& r : c.X.adj[n])
-      ids[n].push_back((uint32_t)r.dst);
-  }
-  G g;
-  g.constructFrom((uint32_t)N, m, prefix, ids);
-  ++c.builds;
-  c.parallelBuilds += c.threads > 1;
-  verifyCsr<G, HyperFam>(c, g, c.X, true, "build");
-}
-
-enum HyperOps : unsigned { H_READ = 1, H_TRANSPOSE = 2, H_SORTDST = 4, H_FINDSORTED = 8, H_SORTDATA = 16, H_SORTCUSTOM = 32, H_FIND = 64, H_MANUAL = 128, H_VECTORS = 256, H_ALL = 511 };
-
-template <class G>
-void regHyper(const std::string& cfg, unsigned ops) {
-  using E = typename G::edge_data_type;
-  using F = HyperFam;
-  auto& R = registry();
-  if (ops & H_READ)
-    R.push_back(mkEntry<E>(F::name, cfg, "read", &opRead<G, F>, 0, 2));
-  if (ops & H_TRANSPOSE)
-    R.push_back(mkEntry<E>(F::name, cfg, "transpose", &opTranspose<G, F>, 0, 2));
-  if (ops & H_SORTDST)
-    R.push_back(mkEntry<E>(F::name, cfg, "sortEdgesByDst", &opSortDst<G, F, false>));
-  if (ops & H_FINDSORTED)
-    R.push_back(mkEntry<E>(F::name, cfg, "findEdgeSortedByDst", &opSortDst<G, F, true>));
-  if (ops & H_SORTCUSTOM)
-    R.push_back(mkEntry<E>(F::name, cfg, "sortEdges", &opSortCustom<G, F>));
-  if (ops & H_FIND)
-    R.push_back(mkEntry<E>(F::name, cfg, "findEdge", &opFind<G, F>));
-  if (ops & H_MANUAL)
-    R.push_back(mkEntry<E>(F::name, cfg, "constructEdge", &opManual<G, F>));
-  if constexpr (std::is_void_v<E>) {
-    if (ops & H_VECTORS)
-      R.push_back(mkEntry<E>(F::name, cfg, "constructFrom-vectors", &opHyperVectors<G>));
-  } else {
-    if (ops & H_SORTDATA)
-      R.push_back(mkEntry<E>(F::name, cfg, "sortEdgesByEdgeData", &opSortData<G, F>));
-  }
-}
-
-template <class E, bool NL = false, bool NU = false, bool OOL = false>
-using Hyper = gg::LC_CSR_Hypergraph<uint32_t, E, NL, NU, OOL>;
-
-template <class E>
-void regHyperFull() {
-  regHyper<Hyper<E>>("lock", H_ALL);
-  regHyper<Hyper<E, true>>("nolock", H_READ | H_TRANSPOSE | H_SORTDST);
-  regHyper<Hyper<E, false, true>>("lock+numa", H_READ | H_TRANSPOSE | H_SORTDST | H_VECTORS);
-  regHyper<Hyper<E, false, false, true>>("ool", H_READ | H_TRANSPOSE | H_SORTDST);
-  regHyper<Hyper<E, true, true>>("nolock+numa", H_READ | H_TRANSPOSE | H_SORTDST);
-  regHyper<Hyper<E, false, true, true>>("ool+numa", H_READ | H_TRANSPOSE | H_SORTDST);
-}
-
 void registerHyper() {
-#if 0 // full matrix: see c11_x_*.cpp
-  regHyperFull<void>();
-  regHyperFull<uint32_t>();
-  regHyperFull<uint64_t>();
-  regHyperFull<float>();
-  regHyperFull<E12>();
-#else
   regHyper<Hyper<void>>("lock", H_ALL);
   regHyper<Hyper<uint32_t>>("lock", H_ALL);
   regHyper<Hyper<uint64_t, false, true, true>>("ool+numa", H_READ | H_TRANSPOSE | H_SORTDST);
   regHyper<Hyper<void, true, true>>("nolock+numa", H_READ | H_TRANSPOSE | H_VECTORS);
-#endif
 }
 
 } // namespace c11
